@@ -992,7 +992,7 @@ func execSendJoinPseudo(args []string) string {
 			return "err:construct:selfok"
 		}
 		// the declared answer of the sender lookup must be what the querier gives
-		if args[8] != "err" {
+		if args[8] != "err" && args[8] != "nil" {
 			u, err := piQuerier(spec.RoomID{}, ev.SenderID())
 			got := "none"
 			if err == nil {
@@ -1009,8 +1009,8 @@ func execSendJoinPseudo(args []string) string {
 	}
 	local := args[7]
 	querier := spec.UserIDForSender(piQuerier)
-	if args[8] == "err" {
-		querier = hsUserQuerier("err")
+	if args[8] == "err" || args[8] == "nil" {
+		querier = hsUserQuerier(args[8])
 	}
 	resp, err := gmsl.HandleSendJoin(gmsl.HandleSendJoinInput{
 		Context: context.Background(), RoomID: *roomID, EventID: string(unhx(args[5])), JoinEvent: raw,
@@ -1046,6 +1046,7 @@ func genSendJoinPseudoFixed(o *Out, r *Rng) {
 	for _, f := range hsForgeClasses {
 		genSendJoinPseudoFix(o, r, 1000, hsFix{forge: f, happy: true})
 	}
+	genSendJoinPseudoFix(o, r, 1000, hsFix{happy: true, senderQ: "nil"})
 }
 
 func genSendJoinPseudoFix(o *Out, r *Rng, i int, fix hsFix) {
@@ -1186,6 +1187,11 @@ func genSendJoinPseudoFix(o *Out, r *Rng, i int, fix hsFix) {
 	if rare(4) {
 		senderQ = "err"
 	}
+	// the querier has no user for this key and reports no error (a key the local server has no mapping for)
+	if rare(4) || fix.senderQ == "nil" {
+		senderQ = "nil"
+		o.Count("sendjoin_pseudo.sender-querier-nil")
+	}
 	reqID := pickDev(r, p, id, "$different")
 	origin := pickDev(r, p, "hs5", "hs2")
 	verify := pickDev(r, p, "good", "bad", "err")
@@ -1202,5 +1208,354 @@ func genSendJoinPseudoFix(o *Out, r *Rng, i int, fix hsFix) {
 	}
 	if i < 2 || (i == 1000 && fix.typ == "t:x.custom") {
 		o.Sample("sendjoin_pseudo type=" + typ + " planted=" + forge + " mapping=" + mcls + " self=" + selfCls + " sk=" + skMode + " -> " + res)
+	}
+}
+
+// ---------------------------------------------------------------- PerformJoin, room version org.matrix.msc4014 (round 5)
+
+// identities of the pseudo-ID join scenarios: key name -> user ID (the joining user is p-joiner, @newcomer:hs5)
+var pjKeyUsers = map[string]string{"p-creator": "@creator:hs1", "p-alice": "@alice:hs2", "p-mallory": "@mallory:hs3", "p-joiner": hsJoiner}
+
+func pjServerKey(server string) ed25519.PrivateKey { return hsKey("server-key-" + server) }
+
+func pjKeyName(sid spec.SenderID) string {
+	for k := range pjKeyUsers {
+		if piSID(hsKey(k)) == string(sid) {
+			return k
+		}
+	}
+	return "?" + string(sid)
+}
+
+// pjKeyDB: every server has its own key
+type pjKeyDB struct{}
+
+func (pjKeyDB) FetcherName() string { return "pjKeyDB" }
+func (pjKeyDB) FetchKeys(ctx context.Context, requests map[gmsl.PublicKeyLookupRequest]spec.Timestamp) (map[gmsl.PublicKeyLookupRequest]gmsl.PublicKeyLookupResult, error) {
+	res := map[gmsl.PublicKeyLookupRequest]gmsl.PublicKeyLookupResult{}
+	for req := range requests {
+		res[req] = gmsl.PublicKeyLookupResult{
+			VerifyKey:    gmsl.VerifyKey{Key: spec.Base64Bytes(pjServerKey(string(req.ServerName)).Public().(ed25519.PublicKey))},
+			ValidUntilTS: spec.Timestamp(4102444800000),
+			ExpiredTS:    gmsl.PublicKeyNotExpired,
+		}
+	}
+	return res, nil
+}
+func (pjKeyDB) StoreKeys(ctx context.Context, results map[gmsl.PublicKeyLookupRequest]gmsl.PublicKeyLookupResult) error {
+	return nil
+}
+
+// pjMember: one m.room.member event of the send_join response, written
+//
+//	<sender key>/<mapping key | ->/<mapping user>/<mapping signatures>/<key the event is signed with>/<membership>
+//
+// sender key: the event's sender (and state key) is the sender ID of this key.  mapping key "-": no mxid_mapping in the
+// content; else content.mxid_mapping = {user_room_key: sender ID of that key, user_id: mapping user}, signed per
+// `mapping signatures`: ok (the user's server, validly) | none | other (hs9 validly, not the user's server) | bad (an entry of
+// the user's server that does not verify) | extrabad (the user's server validly plus an entry of hs9 that does not verify).
+// The event itself is signed under the sender's name with the given key (valid iff it is the sender key).
+type pjMember struct{ sender, mapKey, mapUser, mapSig, evKey, membership string }
+
+func pjParseMembers(s string) []pjMember {
+	var out []pjMember
+	for _, d := range splitList(s, ",") {
+		f := strings.Split(d, "/")
+		if len(f) == 6 {
+			out = append(out, pjMember{f[0], f[1], f[2], f[3], f[4], f[5]})
+		}
+	}
+	return out
+}
+
+func pjMapping(m pjMember) *gmsl.MXIDMapping {
+	if m.mapKey == "-" {
+		return nil
+	}
+	mp := &gmsl.MXIDMapping{UserRoomKey: spec.SenderID(piSID(hsKey(m.mapKey))), UserID: m.mapUser}
+	server := spec.ServerName(domainOf(m.mapUser))
+	sign := func(name spec.ServerName) spec.Base64Bytes {
+		c := *mp
+		_ = c.Sign(name, "ed25519:1", pjServerKey(string(name)))
+		return c.Signatures[name]["ed25519:1"]
+	}
+	switch m.mapSig {
+	case "ok":
+		mp.Signatures = map[spec.ServerName]map[gmsl.KeyID]spec.Base64Bytes{server: {"ed25519:1": sign(server)}}
+	case "other":
+		mp.Signatures = map[spec.ServerName]map[gmsl.KeyID]spec.Base64Bytes{"hs9": {"ed25519:1": sign("hs9")}}
+	case "bad":
+		mp.Signatures = map[spec.ServerName]map[gmsl.KeyID]spec.Base64Bytes{server: {"ed25519:1": make([]byte, 64)}}
+	case "extrabad":
+		mp.Signatures = map[spec.ServerName]map[gmsl.KeyID]spec.Base64Bytes{server: {"ed25519:1": sign(server)}, "hs9": {"ed25519:1": make([]byte, 64)}}
+	}
+	return mp
+}
+
+func pjBuild(typ, senderKey string, stateKey *string, content interface{}, prev, auth []string, roomID, evKey string) gmsl.PDU {
+	verImpl := gmsl.MustGetRoomVersion(piPseudoVer)
+	cj, _ := json.Marshal(content)
+	sid := piSID(hsKey(senderKey))
+	proto := gmsl.ProtoEvent{SenderID: sid, RoomID: roomID, Type: typ, StateKey: stateKey, PrevEvents: prev, AuthEvents: auth, Depth: int64(len(prev) + len(auth) + 1), Content: cj}
+	ev, err := verImpl.NewEventBuilderFromProtoEvent(&proto).Build(piTime, spec.ServerName(sid), "ed25519:1", hsKey(evKey))
+	if err != nil {
+		return nil
+	}
+	return ev
+}
+
+type pjClient struct {
+	mjErr, sjErr bool
+	create, jr   string
+	authM, stM   []pjMember
+	remote       string
+	sent         gmsl.PDU
+	bad          bool
+}
+
+const pjRoom = "!pseudoroom:hs1"
+
+// pjBase: the events every scenario shares — create, the creator's join, power levels, join rules
+type pjBase struct{ create, creatorJoin, pl, jr gmsl.PDU }
+
+func (c *pjClient) member(b *pjBase, m pjMember, auth []string) gmsl.PDU {
+	if m == pjCreator && b.creatorJoin != nil {
+		return b.creatorJoin
+	}
+	content := map[string]interface{}{"membership": m.membership}
+	if mp := pjMapping(m); mp != nil {
+		content["mxid_mapping"] = mp
+	}
+	return pjBuild(spec.MRoomMember, m.sender, sp(piSID(hsKey(m.sender))), content, []string{b.create.EventID()}, auth, pjRoom, m.evKey)
+}
+
+func (c *pjClient) base() *pjBase {
+	rv := gmsl.RoomVersion(piPseudoVer)
+	if c.create == "badver" {
+		rv = "99"
+	}
+	creatorSID := piSID(hsKey("p-creator"))
+	b := &pjBase{}
+	b.create = pjBuild(spec.MRoomCreate, "p-creator", sp(""), gmsl.CreateContent{Creator: creatorSID, RoomVersion: &rv}, []string{}, []string{}, pjRoom, "p-creator")
+	if b.create == nil {
+		return nil
+	}
+	b.creatorJoin = c.member(b, pjCreator, []string{b.create.EventID()})
+	if b.creatorJoin == nil {
+		return nil
+	}
+	b.pl = pjBuild(spec.MRoomPowerLevels, "p-creator", sp(""), map[string]interface{}{"users": map[string]interface{}{creatorSID: 100}, "users_default": 0,
+		"events_default": 0, "state_default": 50, "ban": 50, "kick": 50, "invite": 0, "redact": 50}, []string{b.creatorJoin.EventID()},
+		[]string{b.create.EventID(), b.creatorJoin.EventID()}, pjRoom, "p-creator")
+	if b.pl == nil {
+		return nil
+	}
+	b.jr = pjBuild(spec.MRoomJoinRules, "p-creator", sp(""), map[string]interface{}{"join_rule": c.jr}, []string{b.pl.EventID()},
+		[]string{b.create.EventID(), b.creatorJoin.EventID(), b.pl.EventID()}, pjRoom, "p-creator")
+	if b.jr == nil {
+		return nil
+	}
+	return b
+}
+
+func (c *pjClient) MakeJoin(ctx context.Context, origin, s spec.ServerName, roomID, userID string) (gmsl.MakeJoinResponse, error) {
+	if c.mjErr {
+		return nil, errors.New("make_join failed (scripted)")
+	}
+	b := c.base()
+	if b == nil {
+		c.bad = true
+		return nil, errors.New("construct")
+	}
+	sk := "placeholder"
+	return &hsMakeJoinResp{ver: piPseudoVer, proto: gmsl.ProtoEvent{SenderID: "placeholder", RoomID: pjRoom, Type: spec.MRoomMember, StateKey: &sk,
+		PrevEvents: []string{b.jr.EventID()}, AuthEvents: []string{b.create.EventID(), b.pl.EventID(), b.jr.EventID()}, Depth: 9,
+		Content: spec.RawJSON(`{"membership":"join"}`)}}, nil
+}
+
+func (c *pjClient) SendJoin(ctx context.Context, origin, s spec.ServerName, event gmsl.PDU) (gmsl.SendJoinResponse, error) {
+	c.sent = event
+	if c.sjErr {
+		return nil, errors.New("send_join failed (scripted)")
+	}
+	b := c.base()
+	if b == nil {
+		c.bad = true
+		return nil, errors.New("construct")
+	}
+	memberAuth := []string{b.create.EventID(), b.pl.EventID(), b.jr.EventID()}
+	auth := gmsl.EventJSONs{}
+	if c.create != "missing" {
+		auth = append(auth, b.create.JSON())
+	}
+	auth = append(auth, b.pl.JSON(), b.jr.JSON())
+	for _, m := range c.authM {
+		e := c.member(b, m, memberAuth)
+		if e == nil {
+			c.bad = true
+			return nil, errors.New("construct")
+		}
+		auth = append(auth, e.JSON())
+	}
+	state := gmsl.EventJSONs{b.create.JSON(), b.pl.JSON(), b.jr.JSON()}
+	for _, m := range c.stM {
+		e := c.member(b, m, memberAuth)
+		if e == nil {
+			c.bad = true
+			return nil, errors.New("construct")
+		}
+		state = append(state, e.JSON())
+	}
+	resp := &hsSendJoinResp{auth: auth, state: state}
+	if c.remote == "forged" {
+		// a join "by" our sender ID with content of the resident server's choosing, signed with somebody else's key
+		f := pjBuild(spec.MRoomMember, "p-joiner", sp(piSID(hsKey("p-joiner"))), map[string]interface{}{"membership": "join", "displayname": "chosen by the resident server"},
+			[]string{b.jr.EventID()}, memberAuth, pjRoom, "p-mallory")
+		if f != nil {
+			resp.event = spec.RawJSON(f.JSON())
+		}
+	}
+	return resp, nil
+}
+
+// handshake.performjoin_pseudo mj sid sj create jr authMembers stateMembers storeFail remote
+//
+//	mj / sid / sj   make_join, GetOrCreateSenderID, send_join: ok | err
+//	create          the create event of the auth chain: ok | missing | badver (room_version "99")
+//	jr              the room's join rule (public: our join is allowed; invite: CheckSendJoinResponse refuses it)
+//	authMembers, stateMembers   the m.room.member events of auth_chain / state (pjMember), in order
+//	storeFail       "-" or k: the k-th call of StoreSenderIDFromPublicID fails
+//	remote          the "event" of the send_join response: "-" | forged
+//
+// outcome: <result>|<trace>: result = err:<stage> | ok:join=…:oursig=<the returned event carries a valid signature of the
+// joiner's room key>:same=…; trace = the calls of StoreSenderIDFromPublicID in order ("S:<key name of the sender ID>=<user ID>")
+// and "Q" at the first call of the UserIDQuerier (the auth checks of CheckSendJoinResponse have begun).
+func execPerformJoinPseudo(args []string) string {
+	client := &pjClient{mjErr: args[0] == "err", sjErr: args[2] == "err", create: args[3], jr: args[4],
+		authM: pjParseMembers(args[5]), stM: pjParseMembers(args[6]), remote: args[8]}
+	failAt, _ := strconv.Atoi(args[7])
+	var trace []string
+	stores, asked := 0, false
+	userID, _ := spec.NewUserID(hsJoiner, true)
+	roomID, _ := spec.NewRoomID(pjRoom)
+	joinerKey := hsKey("p-joiner")
+	out, ferr := gmsl.PerformJoin(context.Background(), client, gmsl.PerformJoinInput{
+		UserID: userID, RoomID: roomID, ServerName: "hs1", Content: map[string]interface{}{"displayname": "n"},
+		PrivateKey: pjServerKey("hs5"), KeyID: "ed25519:1", KeyRing: &gmsl.KeyRing{KeyFetchers: nil, KeyDatabase: pjKeyDB{}}, EventProvider: nil,
+		UserIDQuerier: func(roomID spec.RoomID, senderID spec.SenderID) (*spec.UserID, error) {
+			if !asked {
+				asked = true
+				trace = append(trace, "Q")
+			}
+			if u, ok := pjKeyUsers[pjKeyName(senderID)]; ok {
+				return spec.NewUserID(u, true)
+			}
+			return nil, errors.New("no user for this sender ID")
+		},
+		GetOrCreateSenderID: func(ctx context.Context, userID spec.UserID, roomID spec.RoomID, roomVersion string) (spec.SenderID, ed25519.PrivateKey, error) {
+			if args[1] == "err" {
+				return "", nil, errors.New("sender ID creation failed (scripted)")
+			}
+			return spec.SenderIDFromPseudoIDKey(joinerKey), joinerKey, nil
+		},
+		StoreSenderIDFromPublicID: func(ctx context.Context, senderID spec.SenderID, userID string, id spec.RoomID) error {
+			stores++
+			trace = append(trace, "S:"+pjKeyName(senderID)+"="+userID)
+			if stores == failAt {
+				return errors.New("store failed (scripted)")
+			}
+			return nil
+		},
+	})
+	if client.bad {
+		return "err:construct"
+	}
+	tr := "|" + strings.Join(trace, ",")
+	if ferr != nil {
+		return hsPJErrClass(ferr) + tr
+	}
+	rep := hsJoinReport(gmsl.MustGetRoomVersion(piPseudoVer), out.JoinEvent, client.sent, pjRoom, piSID(joinerKey), piSID(joinerKey), joinerKey)
+	return "ok:" + strings.SplitN(rep, ":sigs=", 2)[0] + tr
+}
+
+func pjDesc(m pjMember) string {
+	return strings.Join([]string{m.sender, m.mapKey, m.mapUser, m.mapSig, m.evKey, m.membership}, "/")
+}
+
+func pjDescs(ms []pjMember) string {
+	var out []string
+	for _, m := range ms {
+		out = append(out, pjDesc(m))
+	}
+	return joinOrDash(out, ",")
+}
+
+var pjCreator = pjMember{"p-creator", "p-creator", "@creator:hs1", "ok", "p-creator", "join"}
+var pjAlice = pjMember{"p-alice", "p-alice", "@alice:hs2", "ok", "p-alice", "join"}
+
+// pjFaultyMembers: member events whose mxid_mapping must NOT be stored under the event's sender — and two that must
+var pjFaultyMembers = map[string]pjMember{
+	// sender = alice's key, signed with mallory's key, carrying MALLORY's own valid mapping
+	"foreign-mapping": {"p-alice", "p-mallory", "@mallory:hs3", "ok", "p-mallory", "join"},
+	// the same, properly signed with alice's key (alice vouching for nothing: the mapping is still not about her key)
+	"foreign-mapping-selfsigned": {"p-alice", "p-mallory", "@mallory:hs3", "ok", "p-alice", "join"},
+	"unsigned-mapping":           {"p-alice", "p-alice", "@alice:hs2", "none", "p-alice", "join"},
+	"mapping-of-other-server":    {"p-alice", "p-alice", "@alice:hs2", "other", "p-alice", "join"},
+	"mapping-bad-signature":      {"p-alice", "p-alice", "@alice:hs2", "bad", "p-alice", "join"},
+	"mapping-extra-bad-signature": {"p-alice", "p-alice", "@alice:hs2", "extrabad", "p-alice", "join"},
+	// a valid mapping for the sender in an event that is NOT validly signed by the sender's key: what is stored is still true
+	"event-signed-by-other-key": {"p-alice", "p-alice", "@alice:hs2", "ok", "p-mallory", "join"},
+	"good":                      pjAlice,
+	"no-mapping-join":           {"p-alice", "-", "-", "none", "p-alice", "join"},
+	"no-mapping-leave":          {"p-alice", "-", "-", "none", "p-alice", "leave"},
+	"mallory-good":              {"p-mallory", "p-mallory", "@mallory:hs3", "ok", "p-mallory", "join"},
+}
+
+var pjFaultNames = []string{"foreign-mapping", "foreign-mapping-selfsigned", "unsigned-mapping", "mapping-of-other-server", "mapping-bad-signature",
+	"mapping-extra-bad-signature", "event-signed-by-other-key", "good", "no-mapping-join", "no-mapping-leave", "mallory-good"}
+
+func genPerformJoinPseudo(o *Out, tier string, r *Rng) {
+	do := func(label, mj, sid, sj, create, jr string, authM, stM []pjMember, storeFail, remote string) {
+		res := o.Do("performjoin_pseudo", mj, sid, sj, create, jr, pjDescs(authM), pjDescs(stM), storeFail, remote)
+		o.Count("performjoin_pseudo." + strings.SplitN(res, "|", 2)[0])
+		if label != "" {
+			o.Count("performjoin_pseudo." + label + "." + strings.SplitN(res, "|", 2)[0])
+			if label == "foreign-mapping" || label == "good" {
+				o.Sample("performjoin_pseudo state member " + label + " -> " + res)
+			}
+		}
+	}
+	base := []pjMember{pjCreator}
+	// fixed prologue: every class of member event alone in the state, join allowed / refused
+	for _, name := range pjFaultNames {
+		for _, jr := range []string{"public", "invite"} {
+			do(name, "ok", "ok", "ok", "ok", jr, base, []pjMember{pjCreator, pjFaultyMembers[name]}, "-", "-")
+		}
+	}
+	for _, stage := range [][5]string{{"err", "ok", "ok", "ok", "-"}, {"ok", "err", "ok", "ok", "-"}, {"ok", "ok", "err", "ok", "-"},
+		{"ok", "ok", "ok", "missing", "-"}, {"ok", "ok", "ok", "badver", "-"}, {"ok", "ok", "ok", "ok", "1"}, {"ok", "ok", "ok", "ok", "2"}, {"ok", "ok", "ok", "ok", "3"}} {
+		do("stage", stage[0], stage[1], stage[2], stage[3], "public", base, []pjMember{pjCreator, pjAlice}, stage[4], "-")
+	}
+	do("remote-forged", "ok", "ok", "ok", "ok", "public", base, []pjMember{pjCreator, pjAlice}, "-", "forged")
+	n := 40
+	if tier == "thorough" {
+		n = 1500
+	}
+	for i := 0; i < n; i++ {
+		stM := []pjMember{pjCreator}
+		used := map[string]bool{"p-creator": true}
+		for _, name := range []string{Pick(r, pjFaultNames), Pick(r, pjFaultNames)} {
+			m := pjFaultyMembers[name]
+			if !used[m.sender] { // one member event per state key
+				used[m.sender] = true
+				stM = append(stM, m)
+			}
+		}
+		authM := base
+		if r.Chance(20) {
+			authM = append([]pjMember{pjCreator}, pjFaultyMembers[Pick(r, pjFaultNames)])
+		}
+		do("", pickDev(r, 92, "ok", "err"), pickDev(r, 92, "ok", "err"), pickDev(r, 92, "ok", "err"), pickDev(r, 88, "ok", "missing", "badver"),
+			pickDev(r, 75, "public", "invite"), authM, stM, pickDev(r, 85, "-", "1", "2", "3"), pickDev(r, 95, "-", "forged"))
 	}
 }
